@@ -15,7 +15,7 @@ RULE = ('programs (ending by value / Stop / UnsuccessfulResult / Kill command / 
 ASSUMPTIONS = ['expected outcome is computed from the program text and the request log, not read back from the process',
                'hooks do not raise (C03 owns that)']
 REQUIRED = ['terminated', 'final/finished', 'final/excepted', 'final/killed', 'kill_while_paused', 'kill_in_step', 'kill_from_listener',
-            'unsuccessful_by_outputs']
+            'unsuccessful_by_outputs', 'raising_listener_runs']
 ALPHABET = [['pause', 'p'], ['play'], ['kill', 'k'], ['resume', ['v']], ['fail', 'f'], ['soon_raise', 'c']]
 BOUNDS = {'quick': 'basic program family (+required-output variants), K<=2 exhaustive', 'thorough': 'K=3 exhaustive on 4 key programs, + 40 random programs, K=3 sampled'}
 
@@ -48,6 +48,10 @@ def gen_cases(tier, seed):
         deep = ()
         if tier == 'thorough' and name in DEEP:
             deep = (p for p in plans.all_placements(n, [['pause', 'p'], ['play'], ['kill', 'k'], ['resume', ['v']]], 3) if True)
+        # every observer broken (raises from each notification): each must still get its one terminal notification
+        for j, plan in enumerate([[]] + list(plans.all_placements(n, [['pause', 'p'], ['kill', 'k'], ['fail', 'f']], 1))):
+            yield {'name': name, 'program': prog, 'plan': plans.uniq(plan, 'r%d' % j), 'drain': True, 'probe': False,
+                   'barrage': False, 'listener': 'raising', 'req_output': req}
         for i, plan in enumerate(itertools.chain(plist, deep)):
             yield {'name': name, 'program': prog, 'plan': plans.uniq(plan, 'q%d' % i), 'drain': True, 'probe': False,
                           'barrage': False, 'listener': True, 'req_output': req}
@@ -58,7 +62,7 @@ def run_case(case):
     viol = judges.judge_c02(rec)
     fin = rec['final']
     obs = {'terminated': int(bool(fin and fin['terminated'])), 'final': {}, 'kill_while_paused': 0, 'kill_in_step': 0, 'kill_from_listener': 0,
-           'unsuccessful_by_outputs': 0, 'views_compared': 0}
+           'unsuccessful_by_outputs': 0, 'views_compared': 0, 'raising_listener_runs': int(case.get('listener') == 'raising')}
     if fin:
         obs['final'][fin['state']] = 1
         if fin['terminated']:
